@@ -130,6 +130,17 @@ CLAIMS = {
              "corresponding JavaScript values; set/get/eval histories of length <= 3 against a dict model.",
         technique="symbolic execution of the real conversion and call-protocol code on symbolic values (CrossHair/z3), solver-indexed shapes",
         design_ref="DESIGN.md section 4 (C11)"),
+    "C12": dict(
+        text="Histories of <= 2 (quick) / 3 (thorough) operations over two contexts with different limits, each operation a "
+             "solver-chosen index into 18 kinds (define var/function, assign, set, get, mutate Object.prototype / Math / built-in "
+             "constructors, indirect eval, new Function, throw, runtime TypeError, syntax error, loop forever under a stub clock, "
+             "recurse forever into the memory limit, throws from nested eval, regex callbacks and array callbacks) on a "
+             "solver-chosen context and name with a symbolic integer payload, all through the public Context API. After every "
+             "step every observation (globals, typeof, built-in probes) on BOTH contexts is compared with a one-dict-per-context "
+             "model, _current_vm must be cleared, after an error step a probe script (loop, regex, closure, sort, try/finally) "
+             "must behave as on a fresh context, and a context created afterwards must be pristine.",
+        technique="symbolic execution of the real Context/VM over solver-indexed operation histories (CrossHair/z3), dict model",
+        design_ref="DESIGN.md section 4 (C12)"),
     "C13": dict(
         text="The real lexer and parser against a transcription of the ECMAScript expression grammar written as a printer "
              "(vf/refsem/syntax.py): every pair of operator kinds (57 kinds: binary, logical, unary, update, assignment, "
